@@ -105,6 +105,9 @@ func funcName(f *types.Func) string {
 	return pk + "." + f.Name()
 }
 
+// method name -> full names of the concrete methods of that name in the analysed packages (filled before the walk)
+var allMethodNames = map[string][]string{}
+
 type fnState struct {
 	a      *analyzer
 	fn     *fnInfo
@@ -248,7 +251,7 @@ func (s *fnState) addWrite(e ast.Expr, how string) {
 		if r.kind == rFresh {
 			continue
 		}
-		s.writes = append(s.writes, fmt.Sprintf("mkW %q %s %q (* %s %s *)", s.fn.name, r.coq(), pathOf(e), how, s.a.fset.Position(e.Pos())))
+		s.writes = append(s.writes, fmt.Sprintf("mkW @%s@ %s %q (* %s %s *)", s.fn.name, r.coq(), pathOf(e), strings.ReplaceAll(how, "(*", "(ptr "), s.a.fset.Position(e.Pos())))
 	}
 }
 
@@ -357,9 +360,11 @@ func (s *fnState) call(x *ast.CallExpr) {
 		var args []string
 		for _, a := range x.Args {
 			if tv, ok := s.a.info.Types[a]; ok && isPointerish(tv.Type) {
+				var parts []string
 				for _, r := range s.rootsOf(a) {
-					args = append(args, r.coq())
+					parts = append(parts, r.coq())
 				}
+				args = append(args, "["+strings.Join(parts, "; ")+"]")
 			}
 		}
 		if _, isConv := s.a.info.Types[x.Fun]; isConv && s.a.info.Types[x.Fun].IsType() {
@@ -370,7 +375,7 @@ func (s *fnState) call(x *ast.CallExpr) {
 				return
 			}
 		}
-		s.calls = append(s.calls, fmt.Sprintf("mkC %q %q None [%s] (* %s *)", s.fn.name, "<dynamic>", strings.Join(args, "; "), s.a.fset.Position(x.Pos())))
+		s.calls = append(s.calls, fmt.Sprintf("mkC @%s@ @<dynamic>@ None [%s] (* %s *)", s.fn.name, strings.Join(args, "; "), s.a.fset.Position(x.Pos())))
 		return
 	}
 	name := funcName(callee)
@@ -407,7 +412,18 @@ func (s *fnState) call(x *ast.CallExpr) {
 			args = append(args, "[]")
 		}
 	}
-	s.calls = append(s.calls, fmt.Sprintf("mkC %q %q %s [%s] (* %s *)", s.fn.name, name, recv, strings.Join(args, "; "), s.a.fset.Position(x.Pos())))
+	names := []string{name}
+	if sig, ok := callee.Type().(*types.Signature); ok && sig.Recv() != nil {
+		if _, isIface := sig.Recv().Type().Underlying().(*types.Interface); isIface {
+			names = nil
+			for _, cand := range allMethodNames[callee.Name()] {
+				names = append(names, cand)
+			}
+		}
+	}
+	for _, nm := range names {
+		s.calls = append(s.calls, fmt.Sprintf("mkC @%s@ @%s@ %s [%s] (* %s *)", s.fn.name, nm, recv, strings.Join(args, "; "), s.a.fset.Position(x.Pos())))
+	}
 }
 
 func analyzePackage(fset *token.FileSet, imp types.Importer, dir, path string) (*analyzer, error) {
@@ -460,12 +476,22 @@ func main() {
 	fset := token.NewFileSet()
 	imp := importer.ForCompiler(fset, "source", nil)
 	var writes, calls, funcs, globals []string
+	var as []*analyzer
 	for _, p := range []struct{ dir, path string }{{"errors", "github.com/nlnwa/whatwg-url/errors"}, {"url", "github.com/nlnwa/whatwg-url/url"}, {"canonicalizer", "github.com/nlnwa/whatwg-url/canonicalizer"}} {
 		a, err := analyzePackage(fset, imp, filepath.Join(repo, p.dir), p.path)
 		if err != nil {
 			fmt.Fprintln(os.Stderr, "type check failed:", err)
 			os.Exit(1)
 		}
+		as = append(as, a)
+		for _, fn := range a.fns {
+			if fn.recv != nil {
+				short := fn.name[strings.LastIndex(fn.name, ".")+1:]
+				allMethodNames[short] = append(allMethodNames[short], fn.name)
+			}
+		}
+	}
+	for _, a := range as {
 		for _, fn := range a.fns {
 			s := &fnState{a: a, fn: fn, alias: map[*types.Var][]root{}}
 			s.walk(fn.decl.Body)
@@ -481,11 +507,43 @@ func main() {
 			}
 		}
 	}
+	// functions are referred to by their index in [functions] (string comparison is slow inside Coq);
+	// callees outside the analysed packages and calls through function values get the index [nfun]
+	idx := map[string]int{}
+	for i, f := range funcs {
+		var name string
+		fmt.Sscanf(f, "mkF %q", &name)
+		idx[name] = i
+	}
+	renum := func(lines []string) []string {
+		out := make([]string, len(lines))
+		for k, l := range lines {
+			for {
+				a := strings.Index(l, "@")
+				if a < 0 {
+					break
+				}
+				b := strings.Index(l[a+1:], "@")
+				name := l[a+1 : a+1+b]
+				n, ok := idx[name]
+				if !ok {
+					n = len(funcs) // not analysed (library): no effect on its arguments (reviewed list of mutators is handled as writes)
+					if name == "<dynamic>" {
+						n = len(funcs) + 1
+					}
+				}
+				l = l[:a] + fmt.Sprintf("%d (* %s *)", n, strings.ReplaceAll(name, "(*", "(ptr ")) + l[a+2+b:]
+			}
+			out[k] = l
+		}
+		return out
+	}
+	writes, calls = renum(writes), renum(calls)
 	var o strings.Builder
 	o.WriteString("(* GENERATED from /repo by harness/cmd/geneffects on every run. Do not edit. *)\nFrom Coq Require Import String List.\nImport ListNotations.\nOpen Scope string_scope.\n\n")
 	o.WriteString("Inductive root := RRecv | RParam (i : nat) | RGlobal (name : string) | RFresh | RUnknown.\n")
-	o.WriteString("Record ewrite := mkW { w_fn : string; w_root : root; w_path : string }.\n")
-	o.WriteString("Record ecall := mkC { c_fn : string; c_callee : string; c_recv : option (list root); c_args : list (list root) }.\n")
+	o.WriteString("Record ewrite := mkW { w_fn : nat; w_root : root; w_path : string }.\n")
+	o.WriteString("Record ecall := mkC { c_fn : nat; c_callee : nat; c_recv : option (list root); c_args : list (list root) }.\n")
 	o.WriteString("Record efunc := mkF { f_name : string; f_method : bool; f_nparams : nat; f_public : bool }.\n\n")
 	o.WriteString("Definition functions : list efunc := [\n  " + strings.Join(funcs, ";\n  ") + "\n].\n\n")
 	o.WriteString("Definition package_vars : list string := [" + strings.Join(globals, "; ") + "].\n\n")
